@@ -197,6 +197,27 @@ pub mod zn {
 }
 
 #[cfg(kani)]
+pub mod zt {
+    //! by-name lookup on a tiny 3-section file whose only named section has a non-UTF-8 name (concrete absent query)
+    use super::z::*;
+    use elf::endian::AnyEndian;
+    use elf::ElfBytes;
+    include!("../../core/src/gen_files.rs");
+
+    #[kani::proof]
+    #[kani::stub(std::alloc::alloc, no_alloc)]
+    #[kani::stub(std::alloc::alloc_zeroed, no_alloc)]
+    #[kani::stub(std::alloc::realloc, no_realloc)]
+    #[kani::unwind(6)]
+    pub fn by_name_tiny_no_alloc() {
+        let file: &'static [u8] = &NAMES_T_FILE;
+        let f = ElfBytes::<AnyEndian>::minimal_parse(file).unwrap();
+        let r = f.section_header_by_name("z");
+        kani::cover!(matches!(r, Ok(None)), "name not present: the non-UTF-8 section name was visited");
+    }
+}
+
+#[cfg(kani)]
 pub mod zw {
     //! reachability witness: the same stubs DO catch an allocation (this harness must fail with the stub's assertion)
     use super::z::*;
